@@ -44,7 +44,11 @@ claim('C14', 'unit-discipline provenance rules on Position/SemanticToken constru
       'Partial: every column accumulator advances by char::len_utf16 and no Position.character or token length derives from a byte offset or char count (UTF-16 contract); Document.content and the analysed text are written together under one lock region only by the three sync functions, with is_open re-checked inside the region; incremental changes are applied only at resolved positions behind the end <= len guard and did_change stores the applied text. The change-sequence semantics and char-boundary safety of slices are not decided.',
       _TB, 'DESIGN.md section 4 / C14')
 
+claim('C09', 'sibling agreement on field read sets + field write sets closed over the call graph (cycle vs restart) + who-mints/who-rebinds reachability + must-pass rules',
+      'Partial: warm restart vs retain snapshot/apply agree on the retained declaration sources (known finding F9); every runtime-state field the cycle can write is written or re-created by restart or exempted with a reason (known finding F10 for the process image); a re-minting function must rebuild the instance-reference tables (known finding F8); policy table and retainability filter shared; operator restart is followed by load_retain_store before the next cycle; restart seeds task state like register_task and resets clock, frames, latch, cycle counter and save cadence. Values after restart are not decided.',
+      _TB, 'DESIGN.md section 4 / C09')
+
 _PENDING = 'check not built yet in this commit (work in progress; see DESIGN.md section 10 for the build order)'
-for _p in ['C02','C03','C04','C05','C06','C09','C12','C13','C16']:
+for _p in ['C02','C03','C04','C05','C06','C12','C13','C16']:
     na(_p, _PENDING)
 na('C15', 'formatting token-sequence preservation and idempotence are equalities between values computed by string manipulation; no shape-of-code fact is a necessary condition that a realistic breaking edit would violate (DESIGN.md section 5)')
